@@ -14,7 +14,7 @@ import math
 
 from . import common
 from .c01 import (MATS, NAMES, SCALARS, apply_op, bits, build, op_words, cell_ok, compare_attrs, ctor_words, differs, fail_once, first_principles, fl, flat,
-                  gen_angles, gen_base, gen_lengths, gen_rot, impl_attrs, leanchecker, params_of_base, parse_attrs, repr_class, STRATA)
+                  gen_angles, gen_base, gen_lengths, gen_rot, impl_attrs, leanchecker, params_of_base, special_angles, special_cells, parse_attrs, repr_class, STRATA)
 
 def valid_refs(ops):
     n = 0
@@ -105,6 +105,18 @@ def oracle_step(world, snaps, op, t):
     a, b, c, al, be, ga = T.abcABG()
     for n, e, o, _ in compare_attrs(first_principles(a, b, c, al, be, ga, R.tolist()), got, 2e-9):
         bad.append(("attribute %s (first principles)" % n, e, o))
+    # (6) reciprocal() of EVERY live object describes the reciprocal of its CURRENT state (nothing remembered from before
+    #     an update, also for copies): parameters are the cached reciprocal parameters, base is dual to the current base,
+    #     and its own reciprocal is the current lattice
+    for j, L in enumerate(world):
+        cur = got if j == t else impl_attrs(L)
+        rec = L.reciprocal()
+        ra = impl_attrs(rec)
+        chk("object %d: reciprocal().abcABG() == current (ar, br, cr, alphar, betar, gammar)" % j,
+            [[cur[n] for n in ("ar", "br", "cr", "alphar", "betar", "gammar")]], [list(rec.abcABG())])
+        dual = (np.array(cur["base"]) @ np.array(ra["base"]).T).tolist()
+        chk("object %d: base . reciprocal().base^T == 1" % j, np.eye(3).tolist(), dual)
+        chk("object %d: reciprocal().reciprocal().base == current base" % j, cur["base"], impl_attrs(rec.reciprocal())["base"])
     return bad
 
 
@@ -185,7 +197,7 @@ def gen_history(rng, nmax, with_error):
     n = rng.randrange(3, nmax + 1)
     while len(ops) < n:
         kinds = ["new", "newpar", "newbase"] if not shadow else (
-            ["newpar", "newbase", "new"] * (1 if len(shadow) < 2 else 0) + ["copy", "recip"] * (1 if len(shadow) < 5 else 0)
+            ["newpar", "newbase", "new"] * (1 if len(shadow) < 2 else 0) + ["copy"] * (1 if len(shadow) < 5 else 0) + ["recip"] * (3 if len(shadow) < 8 else 0)
             + ["setpar"] * 5 + ["prop"] * 4 + ["setbase"] * 3)
         k = rng.choice(kinds)
         i = rng.randrange(len(shadow)) if shadow else 0
@@ -259,7 +271,35 @@ def qtag(q):
     """root-cause tag of an oracle quantity (attribute name / clause) used to report each cause once"""
     if " untouched by " in q:
         return "untouched"
+    if q.startswith("object ") and ": " in q:
+        return q.split(": ", 1)[1]
     return q.split(" equals")[0].split(" of Lattice(base")[0].split(" (")[0]
+
+
+def special_histories(rng):
+    """every special angle (see c01.special_angles), exactly and +-1e-9, in every angle position, reached through the
+    constructor, through setLatPar and through a property assignment (all three routes for the exact value), followed by
+    reciprocal() and by setLatBase of the object's own base (the two views)"""
+    sweep, skipped = special_cells()
+    out = []
+    for n, (pos, x, eps, cell, cell0) in enumerate(sweep):
+        routes = (0, 1, 2) if eps == 0.0 else (n % 3,)
+        for r in routes:
+            a, b, c = gen_lengths(rng)
+            rot = gen_rot(rng) if (n + r) % 2 else None
+            if r == 0:
+                ops = [{"op": "newpar", "abcABG": [a, b, c] + list(cell), "rot": rot}]
+            elif r == 1:
+                args = {NAMES[3 + pos]: cell[pos]}
+                if n % 2:
+                    args["a"] = round(a * 1.5, 3)
+                ops = [{"op": "newpar", "abcABG": [a, b, c] + list(cell0), "rot": rot}, {"op": "setpar", "i": 0, "args": args}]
+            else:
+                ops = [{"op": "newpar", "abcABG": [a, b, c] + list(cell0), "rot": rot},
+                       {"op": "prop", "i": 0, "name": NAMES[3 + pos], "value": cell[pos]}]
+            ops.append({"op": "recip", "i": 0})
+            out.append(ops)
+    return out, skipped
 
 
 def kinds_of(ops):
@@ -328,15 +368,22 @@ def run(ck):
     nmax = 15 if quick else 40
     rng = ck.rng
     ck.coverage["rule"] = (
-        "%d random histories of 3..%d operations on up to 5 objects mixing Lattice()/Lattice(6 parameters[, baserot])/Lattice(base=), copy construction, "
+        "%d random histories of 3..%d operations on up to 8 objects mixing Lattice()/Lattice(6 parameters[, baserot])/Lattice(base=), copy construction, "
         "reciprocal(), setLatPar with a random subset of its 7 arguments, property assignments and setLatBase; every intermediate cell well-conditioned; "
         "after every step all 26 scalars + 8 arrays of the touched object compared model(Float) vs implementation vs a fresh Lattice of the current "
         "parameters vs first principles, the two views compared, all other objects compared bitwise with their snapshots; 1 in 8 histories ends with a "
-        "rejected operation (error kinds compared); all 384 constructor argument forms; distinct_nontrivial = steps whose touched cell has a non-right angle"
+        "rejected operation (error kinds compared); after every step reciprocal() of EVERY live object is compared with the current "
+        "reciprocal parameters and checked dual to the current base; plus a deterministic sweep of every angle at which cosd/sind may "
+        "hit the tree's current _EXACT_COSD table and all multiples of 15 degrees (exactly and +-1e-9, every angle position, via "
+        "constructor / setLatPar / property); all 384 constructor argument forms; distinct_nontrivial = steps whose touched cell has a non-right angle"
         % (nhist, nmax))
     disagreements = []
     ctor_forms(ck, disagreements)
     hists = [gen_history(rng, nmax, with_error=(h % 8 == 7)) for h in range(nhist)]
+    sp_hists, sp_skipped = special_histories(rng)
+    hists += sp_hists
+    nhist = len(hists)
+    ck.coverage["special_angles"] = {"angles": special_angles(), "histories": len(sp_hists), "skipped_no_valid_cell": sp_skipped}
     opcount = {}
     for lo in range(0, nhist, 500):
         chunk = hists[lo:lo + 500]
